@@ -10,7 +10,8 @@ import (
 // per-packet state (current hop / info field, "effective cross-over done", "at a peering hop", the full MAC for EPIC,
 // the decoded extension layers, the ingress interface ...). Dirt returns one packet per KIND of such state - every
 // field is left in a non-default value by at least one of them - and ProcessHAll judges a packet on fresh processors
-// and then once directly after every one of these predecessors (all histories of length 1 over the kind alphabet).
+// and then once directly after every one of these predecessors (all histories of length 1 over the kind alphabet;
+// HProc.Depth = 2: also all of length 2).
 
 // Dirt returns the predecessor alphabet for this router (needs the usual link types to be configured; kinds whose
 // packet cannot be built with the router's interfaces are left out).
@@ -100,7 +101,10 @@ func sameFast(a, b Result) string {
 type HProc struct {
 	R    *Router
 	Dirt []StockPkt
-	pkt  *router.Packet
+	// Depth of the histories explored by ProcessHAll: 1 (default) = every single predecessor, 2 = additionally every
+	// ordered pair of predecessors.
+	Depth int
+	pkt   *router.Packet
 }
 
 func (r *Router) NewHProc(key []byte, ts uint32) *HProc {
@@ -157,7 +161,34 @@ func (h *HProc) ProcessHAll(raw []byte, in Ingress) (fresh Result, diff string, 
 			return fresh, fmt.Sprintf("directly after a %s packet on the same processor: %s", d.Kind, x), after
 		}
 	}
+	if h.Depth >= 2 {
+		for _, d1 := range h.Dirt {
+			for _, d2 := range h.Dirt {
+				if p1 := h.Process(d1.Raw, d1.In); p1.Panic != nil {
+					h.R.VerifStart()
+				}
+				if p2 := h.Process(d2.Raw, d2.In); p2.Panic != nil {
+					h.R.VerifStart()
+					continue
+				}
+				after := h.Process(raw, in)
+				if x := sameFast(fresh, after); x != "" {
+					h.R.VerifStart()
+					return fresh, fmt.Sprintf("directly after a %s and a %s packet on the same processor: %s", d1.Kind, d2.Kind, x), after
+				}
+			}
+		}
+	}
 	return fresh, "", fresh
+}
+
+// Histories returns the number of histories ProcessHAll explores per packet (including the empty one).
+func (h *HProc) Histories() int {
+	n := 1 + len(h.Dirt)
+	if h.Depth >= 2 {
+		n += len(h.Dirt) * len(h.Dirt)
+	}
+	return n
 }
 
 // DispName names a disposition.
